@@ -8,7 +8,7 @@
    effects = cache loads / probes / stores and upstream GetMap / GetFeatureInfo requests. *)
 From Coq Require Import ZArith List Bool.
 Import ListNotations.
-From MP Require Import Grid Grid_proofs Limits Limits_proofs.
+From MP Require Import Grid Grid_proofs Limits Gen_wmts_parse Limits_proofs.
 Local Open Scope Z_scope.
 
 (* A refusal never costs anything: whenever a tile service answers with an error - whatever the reason - no cache
@@ -30,6 +30,14 @@ Theorem invalid_address_no_effects :
     (forall x y z, rx q = Some x -> ry q = Some y -> rz q = Some z -> ~ in_matrix ly (svc_profiles (rsvc q)) x y z) ->
     exists e, serve_tile ly cached q = (Err e, []).
 Proof. exact serve_tile_invalid_address. Qed.
+
+(* The parsers the code applies to the address components (extracted from request/wmts.py and request/tile.py by the
+   translator on every run) are the ones the model assumes: only decimal integers can become a level, column or row. *)
+Theorem address_parsers_as_modelled :
+  kvp_level_parser = PyInt /\ kvp_row_parser = PyInt /\ kvp_col_parser = PyInt /\
+  rest_level_parser = Digits /\ rest_row_parser = SignedDigits /\ rest_col_parser = SignedDigits /\
+  tms_level_parser = SignedDigits /\ tms_row_parser = SignedDigits /\ tms_col_parser = SignedDigits.
+Proof. exact address_parsers. Qed.
 
 (* GetTile-type requests (everything but GetFeatureInfo) with a format that is not the offered one are refused
    without effects. *)
@@ -66,6 +74,12 @@ Proof. exact featureinfo_format_unchecked_witness. Qed.
 Theorem pixel_limit_no_effects :
   forall se ly cached q m, 0 < m < mw q * mh q -> serve_map (Some m) se ly cached q = (Err TooLarge, []).
 Proof. exact serve_map_pixel_limit. Qed.
+
+(* The same for a WMS layer that is backed directly by a source (no cache): the pixel limit holds whether or not the
+   request carries TILED=true - such a layer ignores the flag, nothing else bounds the size of its upstream request. *)
+Theorem pixel_limit_direct_layer_no_effects :
+  forall se q m, 0 < m < mw q * mh q -> serve_direct (Some m) se q = (Err TooLarge, []).
+Proof. exact serve_direct_pixel_limit. Qed.
 
 (* A map request whose tile grid (of the part inside the SRS extent: srs_limited, and inside the layer extent:
    effective_query) has max_tile_limit tiles or more is refused without effects (num_tiles >= max_tile_limit). *)
